@@ -681,10 +681,19 @@ class T2(T):
             return self.seq(parts)
         if k == "GotoStmt":
             if self.label is None or n.get("targetLabelDeclId") != self.label:
-                raise self.U("goto to a label other than the function's final label")
+                raise self.U("goto to a label other than the one closing the innermost labelled block")
             return ".jmp"
+        if k == "CompoundStmt":
+            ss = kids(n)
+            if ss and ss[-1].get("kind") == "LabelStmt" and not any(x.get("kind") == "LabelStmt" for x in ss[:-1]):
+                # `{ ...; L: tail }` (e.g. a loop body ending in `next: k = next;`): the statements before the label form a
+                # block that `goto L` leaves; a goto to any OTHER label from inside it is refused above
+                prev, self.label = self.label, ss[-1].get("declId")
+                before = self.stmts(ss[:-1])
+                self.label = prev
+                return self.seq([f"(.block {before})", self.stmts(kids(ss[-1]))])
         if k == "LabelStmt":
-            raise self.U("label not at the top level of the function body")
+            raise self.U("label that is neither at the top level of the function body nor the last statement of a block")
         if k == "ReturnStmt":
             if not kids(n):
                 return "(.ret 2)"
@@ -1101,6 +1110,31 @@ SPEC_RMSTREAM = {
     "pure": set(),
     "marked": {"priv_remove_keepalive_timer": 6},
 }
+
+
+SPEC_GATHERDONE = {
+    "lean_ns": "GatheringDone", "file": "agent/agent.c", "fn": "agent_gathering_done",
+    "locals": {}, "offset": {}, "cond_calls": {}, "bool_result_calls": set(),
+    "mem_regs": {"agent->discovery_timer_source": 0},
+    "mem_stable": True,              # (nothing the function calls before the announcement creates or destroys the discovery timer)
+    "pure": set(),
+    "marked": {"agent_signal_gathering_done": 7},
+    "header": ["   r0 = agent->discovery_timer_source (0 = NULL: no discovery item is scheduled or waiting for an answer).",
+               "   Event kind 7 = agent_signal_gathering_done (announces completion for every stream whose run is open)."],
+}
+
+
+def translate_simple(spec, fdecl, src, consts, U, root):
+    """a T2 skeleton with the spec's own header lines"""
+    t = T2(spec, fdecl, src, consts, U, {})
+    prog = t.top()
+    out = [f"/- GENERATED by tools/extract_flow.py from {spec['file']} {spec['fn']} — do not edit.",
+           "   Skeleton (see lean/Nice/Model/Flow.lean)."] + spec.get("header", []) + ["   Sites:"]
+    for i, d in enumerate(t.sites):
+        out.append(f"     {i} — {d}".replace("/-", "/ -").replace("-/", "- /"))
+    out += ["-/", "import Nice.Model.Flow", "namespace Nice.Gen." + spec["lean_ns"], "open Nice.Flow", "",
+            "def prog : Stmt :=", prog, "", "end Nice.Gen." + spec["lean_ns"], ""]
+    return "\n".join(out), {"sites": len(t.sites)}
 
 
 def translate_rmstream(spec, fdecl, src, consts, U, root):
